@@ -36,6 +36,7 @@ def monitorTag (prop : String) (script : List Cmd) (obs : List Obs) : Option Str
                (MonClient.monitorC04Followups script iters 0)
     | "C05" => MonClient.monitorC05 script iters 0
     | "C17" => (MonClient.monitorC17 script iters 0) <|> (MonClient.monitorC17Complete script iters 0) <|>
+               (MonClient.monitorC17Removed script iters 0) <|>
                refineD24 iters (Sim.monitorC13 script iters)
     | "C14" => MonShutdown.monitorBurst script iters 1
     | "C15" => C15.monitorCrash script obs
